@@ -6,6 +6,7 @@ package pointstore
  * node Ids whereas points require a more careful treatment. */
 
 import (
+	"bytes"
 	"errors"
 	"fmt"
 
@@ -116,7 +117,11 @@ func GetPointByNodeId(bucket diskstore.ReadOnlyBucket, nodeId uint64, withData b
 	}
 	var data []byte
 	if withData {
-		data = bucket.Get(conversion.NodeKey(nodeId, 'd'))
+		// The value returned by the bucket is only valid until its transaction
+		// ends (for bbolt it points into the memory map, which a concurrent
+		// write may remap). Search results outlive the read transaction, so
+		// the point data has to be copied.
+		data = bytes.Clone(bucket.Get(conversion.NodeKey(nodeId, 'd')))
 	}
 	sp := ShardPoint{
 		Point: models.Point{
